@@ -321,12 +321,31 @@ func runPlannedStream(cfg vhlib.Config, sum *vhlib.Summary, rng *vhlib.Rng) {
 					sum.Count(fmt.Sprintf("planned_chains/%d", pr.Chains))
 					rows := project(pr.Rows, s.Drop)
 					if pr.Err != "" || !same(sp, rows, refRows) {
-						agree = false
-						sum.Fail(s.Family+"_stream_split_dependent",
-							fmt.Sprintf("%q: %d rows in blocks %v dealt to %d parallel chain(s) built by SetupQueryParallelism (GOMAXPROCS %d, CanParallelSearch = %v,%d) give %s; the same rows through one stream give %s%s",
-								s.SPL, n, sizes, pr.Chains, procs, pr.CanPar, pr.MergeIdx, firstDiff(rowsStr(rows), rowsStr(refRows)), "", errNote(pr.Err)),
+						// the cloned chains share the option structs of the commands and run concurrently
+						// (known race, see notes): a wrong result that does not come back in 4 repetitions
+						// of the same run is filed under the race, one that does is a split dependence
+						again := 0
+						if pr.Chains > 1 {
+							for rep := 0; rep < 4; rep++ {
+								p2 := runPlanned(s.SPL, t, sizes, procs, s.Sparse)
+								if p2.Err != "" || !same(sp, project(p2.Rows, s.Drop), refRows) {
+									again++
+								}
+							}
+						} else {
+							again = 4
+						}
+						cls := s.Family + "_stream_split_dependent"
+						if again == 0 {
+							cls = "parallel_chains_shared_options_race"
+						} else {
+							agree = false
+						}
+						sum.Fail(cls,
+							fmt.Sprintf("%q: %d rows in blocks %v dealt to %d parallel chain(s) built by SetupQueryParallelism (GOMAXPROCS %d, CanParallelSearch = %v,%d) give %s; the same rows through one stream give %s%s [repeated 4 times: wrong again %d times]",
+								s.SPL, n, sizes, pr.Chains, procs, pr.CanPar, pr.MergeIdx, firstDiff(rowsStr(rows), rowsStr(refRows)), "", errNote(pr.Err), again),
 							map[string]interface{}{"spl": s.SPL, "table_rows": rowsStr(in), "block_sizes": sizes, "gomaxprocs": procs, "chains": pr.Chains,
-								"sparse_columns": s.Sparse, "got": rowsStr(rows), "want": rowsStr(refRows), "err": pr.Err})
+								"sparse_columns": s.Sparse, "got": rowsStr(rows), "want": rowsStr(refRows), "err": pr.Err, "wrong_again_of_4": again})
 					}
 				}
 			}
@@ -358,6 +377,37 @@ func runPlannedStream(cfg vhlib.Config, sum *vhlib.Summary, rng *vhlib.Rng) {
 	}
 	cf.flush(sum, cfg.Out)
 	runPlannerCases(cfg, sum)
+	runRaceStream(cfg, sum, rng.Fork())
+}
+
+// known defect: the parallel chains are built from the same QueryAggregators, so the clones share
+// the option structs (lazy caches in *NumericExpr.GetFields, GroupByRequest set up by every
+// statsProcessor) and run concurrently; now and then a clone aggregates with half-initialised options
+func runRaceStream(cfg vhlib.Config, sum *vhlib.Summary, r *vhlib.Rng) {
+	iters := 500
+	if cfg.Thorough() {
+		iters = 6000
+	}
+	t := genClustered(r, 36)
+	spl := "eval w=v*2 | stats sum(w), count by a, g"
+	ref := runChain(spl, t, []int{36}, false)
+	if ref.Err != "" {
+		return
+	}
+	sp := &Spec{Cmp: cmpMultiset}
+	for i := 0; i < iters; i++ {
+		sizes := blocksOf(36, 1+i%4)
+		pr := runPlanned(spl, t, sizes, 4, false)
+		sum.Eval(fmt.Sprintf("race|%d", i), true)
+		sum.Count("race_stream_runs")
+		if pr.Err != "" || !same(sp, pr.Rows, ref.Rows) {
+			sum.Fail("parallel_chains_shared_options_race",
+				fmt.Sprintf("%q: 36 rows in blocks %v dealt to %d parallel chains (GOMAXPROCS 4), repetition %d of %d identical runs gives %s; one stream gives %s%s",
+					spl, sizes, pr.Chains, i, iters, firstDiff(rowsStr(pr.Rows), rowsStr(ref.Rows)), "", errNote(pr.Err)),
+				map[string]interface{}{"spl": spl, "table_rows": rowsStr(t.crows()), "block_sizes": sizes, "gomaxprocs": 4, "repetition": i,
+					"got": rowsStr(pr.Rows), "want": rowsStr(ref.Rows), "err": pr.Err})
+		}
+	}
 }
 
 // every chain of length <= 3 over representative commands: the real CanParallelSearch on the
